@@ -44,6 +44,16 @@ def norm_event(e):
     return {k: e[k] for k in FIELDS[e["e"]]}
 
 
+def acdev_response_ok(f):
+    """Reference check that f is a well-formed, checksum-valid appliance response frame (what 'a response' means at device level)."""
+    from . import acdev
+    f = bytes(f)
+    if len(f) < 13 or f[0] != 0xAA or f[1] != len(f) - 1 or acdev.csum(f[1:-1]) != f[-1]:
+        return False
+    body = f[10:-1]
+    return body[0] in (0xB0, 0xB1) or acdev.crc8(body[:-1]) == body[-1] or acdev.csum(body[:-1]) == body[-1]
+
+
 def acdev_state_frame():
     from . import acdev
     return acdev.resp_frame(4, acdev.encode_state(acdev.DEFAULT_STATE), "crc")
@@ -210,6 +220,9 @@ class Session:
         specification, not this harness, decides from them whether a handshake reply is genuine (Trace_Mon!Ev)."""
         if self.version != 3:
             return {"ty": -1, "ln": len(data), "proof": False}
+        start = data.find(b"\x83\x70")
+        if start > 0:
+            data = data[start:]                  # bytes in front of the start marker are skipped by a conforming receiver (C04)
         ok_hdr = len(data) >= 8 and data[:2] == b"\x83\x70" and data[4] == 0x20 and int.from_bytes(data[2:4], "big") + 8 == len(data)
         if not ok_hdr:
             return {"ty": -1, "ln": len(data), "proof": False}
@@ -324,7 +337,7 @@ class Session:
             ev["r"] = "frames"
             ev["n"] = len(v) if v is not None else 0
             self.last_frames = v
-            self.op_frames += ev["n"]
+            self.op_frames += sum(1 for f in (v or []) if acdev_response_ok(f))
         ev["stored"] = self._stored()
         return ev
 
@@ -429,6 +442,16 @@ class Session:
         self.loop.run_idle()
         return self._collect({"e": "deliver", "c": m["conn"] + 1, "m": m["cls"], "k": m["k"], "gen": bool(m["gen"]), "live": bool(fed), "i": i + 1,
                               "obs": m.get("obs") or {"ty": -1, "ln": 0, "proof": False}})
+
+    def inject(self, data):
+        """The peer sends bytes nobody asked for on the client's current connection (they are in flight until delivered)."""
+        trs = [t for t in self.net.conns if not t._closing]
+        if not trs:
+            return False
+        tr = trs[-1]
+        m, k, gen = self._classify(bytes(data), self.dev.sess[tr.cid])
+        self.parked.append({"conn": tr.cid, "data": bytes(data), "cls": m, "k": k, "gen": gen, "obs": self._observe(bytes(data))})
+        return True
 
     def timer(self, reply=None):
         if reply:
